@@ -7,9 +7,14 @@ Nlo  == atoi(IOEnv.VERIF_NLO)
 Nhi  == atoi(IOEnv.VERIF_NHI)
 Mhi  == atoi(IOEnv.VERIF_MHI)
 Band == 16
-Blocks == {[nlo |-> Nlo + Band * b, nhi |-> (IF Nlo + Band * b + Band - 1 > Nhi THEN Nhi ELSE Nlo + Band * b + Band - 1),
+B0 == [nlo |-> 0, nhi |-> 0, mlo |-> 1, mhi |-> 1, default |-> FALSE, delay |-> 0, conc |-> 0, nest |-> 0]
+(* many callers at once (2, NumCPU+1, 40, 100) and re-entrant calls (depth 1, 2, NumCPU+1, 20), default and explicit limit: emitted once, with the first band *)
+Extra == IF Nlo # 0 THEN {}
+         ELSE {[B0 EXCEPT !.nlo = n, !.nhi = n + 2, !.mlo = m, !.default = df, !.delay = 1, !.conc = kk] : n \in {1, 17, 64, 1000}, m \in {3}, df \in BOOLEAN, kk \in {2, 17, 40, 100}}
+              \cup {[B0 EXCEPT !.nlo = n, !.nhi = n, !.mlo = m, !.default = df, !.nest = dd] : n \in {1, 5, 64}, m \in {3}, df \in BOOLEAN, dd \in {1, 2, 17, 20}}
+Blocks == Extra \cup {[conc |-> 0, nest |-> 0, nlo |-> Nlo + Band * b, nhi |-> (IF Nlo + Band * b + Band - 1 > Nhi THEN Nhi ELSE Nlo + Band * b + Band - 1),
             mlo |-> 1, mhi |-> Mhi, default |-> FALSE, delay |-> (b % 3)] : b \in 0 .. ((Nhi - Nlo) \div Band)}
-          \cup {[nlo |-> Nlo, nhi |-> (IF Nhi > Nlo + 400 THEN Nlo + 400 ELSE Nhi), mlo |-> 1, mhi |-> 1, default |-> TRUE, delay |-> 1]}
+          \cup {[conc |-> 0, nest |-> 0, nlo |-> Nlo, nhi |-> (IF Nhi > Nlo + 400 THEN Nlo + 400 ELSE Nhi), mlo |-> 1, mhi |-> 1, default |-> TRUE, delay |-> 1]}
 VARIABLE done
 Init == done = FALSE
 Next == ~done /\ done' = ndJsonSerialize(Out, SetToSeq(Blocks))
